@@ -91,4 +91,10 @@ class Monitor(object):
             self.events = pd.concat([self.events,
                                     pd.DataFrame(self.simulation.buffer.events)])
 
+        # The actors only ever append to their event lists (helper processes
+        # of the same actor append at any point of a timestep); the monitor
+        # is the single consumer and empties them once they are recorded.
+        self.simulation.instrument.events = []
+        self.simulation.scheduler.events = []
+        self.simulation.buffer.events = []
         self.events = self.events.infer_objects()
